@@ -83,7 +83,7 @@ var smallInputs = map[string][]string{
 		`var`, `(`, `{`, ``, `a +`, `"unterminated`, `/re`, "`tpl", `function(`, `1.0.toFixed()`,
 		// module syntax with string names, hexadecimal and other literal forms at their boundaries
 		"var x = 1 ; export { x as \"it's \\\"q\\\"\" , x as \"a\\nb\" , x as \"plain name\" } ; import { \"it's \\\"q\\\"\" as y , \"a b\" as z } from \"./m.js\" ; export * as \"all of it\" from './n.js'",
-		"m = 0xFFFFFFFFFF ; n = 0xffffffffff ; o = 0XABCDEF0123 ; p = 0b1111111111111111111111111111111111111111 ; q = 0o7777777777777 ; r = 0xFFFFFFFFFFFFF ; s = 1_000_000 ; t = .5e-7 ; u = 0xFn",
+		"m = 0xFFFFFFFFFF ; n = 0xffffffffff ; o = 0XABCDEF0123 ; p = 0b1111111111111111111111111111111111111111 ; q = 0o7777777777777 ; r = 0xFFFFFFFFFFFFF ; s = 1_000_000 ; t = .5e-7 ; u = 0xFn ; v = 0x3E8n ; w = 0xF4240n ; x = 0o1750n ; y = 0b1111101000n ; z = 0x3E8",
 	},
 	"application/json": {
 		`{ "a" : [ 1.0 , 2e3 , -0.50 , true , null ] , "b" : { "c" : "d\n" } }`, `[ ]`, `  "str"  `, `1.500`, `{"a":{"b":{"c":[[[1,2,[3]]]]}}}`,
